@@ -42,6 +42,8 @@ type Solver struct {
 	levels       [][]string
 	lastFallback bool
 	Fallbacks    int
+	Restarts     int
+	lastSent     string
 	fbTimeout    int // seconds for the one-shot fallback
 	tmpDir       string
 }
@@ -87,6 +89,13 @@ func NewSolver(kind string, timeoutMs int, logw io.Writer) (*Solver, error) {
 }
 
 func (s *Solver) send(text string) {
+	if len(text) > 12 && !strings.HasPrefix(text, "(check-sat") && !strings.HasPrefix(text, "(pop") && !strings.HasPrefix(text, "(push") {
+		if len(text) > 300 {
+			s.lastSent = text[len(text)-300:]
+		} else {
+			s.lastSent = text
+		}
+	}
 	if s.log != nil {
 		io.WriteString(s.log, text)
 	}
@@ -191,6 +200,84 @@ func (s *Solver) readLine() string {
 	return strings.TrimSpace(line)
 }
 
+// readLineTimeout reads the answer to a check-sat with a watchdog: z3's soft timeout is not
+// honoured inside some preprocessing steps (floating point), so a solver that stays silent for
+// much longer than its timeout is killed and restarted with the current assertion stack.
+func (s *Solver) readLineTimeout() (string, bool) {
+	if s.timeout <= 0 {
+		return s.readLine(), true
+	}
+	type res struct {
+		line string
+		err  error
+	}
+	ch := make(chan res, 1)
+	rd := s.out
+	go func() {
+		for {
+			line, err := rd.ReadString('\n')
+			if err != nil {
+				ch <- res{"", err}
+				return
+			}
+			l := strings.TrimSpace(line)
+			if l != "" {
+				ch <- res{l, nil}
+				return
+			}
+		}
+	}()
+	limit := time.Duration(s.timeout)*time.Millisecond*2 + 3*time.Second
+	select {
+	case r := <-ch:
+		if r.err != nil {
+			panic(engineAbort{"solver read: " + r.err.Error()})
+		}
+		return r.line, true
+	case <-time.After(limit):
+		s.restart()
+		return "", false
+	}
+}
+
+// restart kills the solver process and rebuilds the assertion stack in a fresh one.
+func (s *Solver) restart() {
+	s.Restarts++
+	s.in.Close()
+	s.cmd.Process.Kill()
+	s.cmd.Wait()
+	bin, args := solverArgs(s.kind)
+	cmd := exec.Command(bin, args...)
+	in, err := cmd.StdinPipe()
+	if err != nil {
+		panic(engineAbort{"solver restart: " + err.Error()})
+	}
+	out, err := cmd.StdoutPipe()
+	if err != nil {
+		panic(engineAbort{"solver restart: " + err.Error()})
+	}
+	cmd.Stderr = os.Stderr
+	if err := cmd.Start(); err != nil {
+		panic(engineAbort{"solver restart: " + err.Error()})
+	}
+	s.cmd, s.in, s.out = cmd, in, bufio.NewReaderSize(out, 1<<16)
+	s.send("(set-option :produce-models true)\n")
+	if s.kind == "cvc5" {
+		s.send("(set-logic ALL)\n")
+		s.send(fmt.Sprintf("(set-option :tlimit-per %d)\n", s.timeout))
+	} else {
+		s.send(fmt.Sprintf("(set-option :timeout %d)\n", s.timeout))
+	}
+	for i, l := range s.levels {
+		if i > 0 {
+			s.send("(push 1)\n")
+		}
+		for _, t := range l {
+			s.send(t)
+		}
+	}
+}
+
 // Check runs check-sat under the current assertions.
 func (s *Solver) Check() Result {
 	s.flush()
@@ -199,7 +286,10 @@ func (s *Solver) Check() Result {
 	s.send("(check-sat)\n")
 	var r Result
 	for {
-		line := s.readLine()
+		line, answered := s.readLineTimeout()
+		if !answered {
+			line = "unknown"
+		}
 		if line == "" {
 			continue
 		}
@@ -231,6 +321,9 @@ func (s *Solver) Check() Result {
 	}
 	s.Queries++
 	s.Time += time.Since(t0)
+	if os.Getenv("GOSYM_SLOW") != "" && time.Since(t0) > 2*time.Second {
+		fmt.Fprintf(os.Stderr, "SLOW %.1fs %v fallback=%v last=%q\n", time.Since(t0).Seconds(), r, s.lastFallback, s.lastSent)
+	}
 	return r
 }
 
